@@ -100,6 +100,10 @@ pub fn run(cfg: cfg::Config) -> ! {
                                     r.print();
                                 }
                             }
+                            if let Some(what) = prog::stuck_allocation() {
+                                world::violation("C10", "allocation-request-never-returns", format!("no progress for {} s: {}", limit, what));
+                                world::print_reports_and_exit(0);
+                            }
                             world::with_report("C01", |r| r.inconclusive(format!("no progress for {} s (ops {}, gcs {})", limit, w.counters.ops.load(Ordering::Relaxed), w.counters.gcs.load(Ordering::Relaxed))));
                             eprintln!("VERIF-WATCHDOG no progress for {} s", limit);
                             world::print_reports_and_exit(4);
